@@ -152,9 +152,11 @@ public:
     {
         if (ptr_ == other.ptr_)
             return *this;
-        inc_reference(other.ptr_);
+        // other may be a member of the object released by dec_reference()
+        Type* other_ptr = other.ptr_;
+        inc_reference(other_ptr);
         dec_reference();
-        ptr_ = other.ptr_;
+        ptr_ = other_ptr;
         return *this;
     }
 
@@ -167,9 +169,11 @@ public:
     {
         if (ptr_ == other.ptr_)
             return *this;
-        inc_reference(other.ptr_);
+        // other may be a member of the object released by dec_reference()
+        Type* other_ptr = other.ptr_;
+        inc_reference(other_ptr);
         dec_reference();
-        ptr_ = other.ptr_;
+        ptr_ = other_ptr;
         return *this;
     }
 
@@ -178,9 +182,11 @@ public:
     {
         if (ptr_ == other.ptr_)
             return *this;
-        dec_reference();
-        ptr_ = other.ptr_;
+        // other may be a member of the object released by dec_reference()
+        Type* other_ptr = other.ptr_;
         other.ptr_ = nullptr;
+        dec_reference();
+        ptr_ = other_ptr;
         return *this;
     }
 
@@ -192,9 +198,11 @@ public:
     {
         if (ptr_ == other.ptr_)
             return *this;
-        dec_reference();
-        ptr_ = other.ptr_;
+        // other may be a member of the object released by dec_reference()
+        Type* other_ptr = other.ptr_;
         other.ptr_ = nullptr;
+        dec_reference();
+        ptr_ = other_ptr;
         return *this;
     }
 
